@@ -1,11 +1,16 @@
+/-
+  Driver/Main.lean — line protocol: one JSON object per input line, one output line per input line.
+  The harness sends the same inputs to the implementation and diffs the streams.
+-/
 import Lean.Data.Json
 import BVM.Model.Bits
+import BVM.Model.Rt
 open Lean BVM
 
 namespace Drv
 
 def hexDigit (n : Nat) : Char := "0123456789abcdef".toList.getD n '0'
-def toHex (b : Buf) : String := String.mk (b.flatMap fun x => [hexDigit (x / 16 % 16), hexDigit (x % 16)])
+def toHex (b : Buf) : String := String.ofList (b.flatMap fun x => [hexDigit (x / 16 % 16), hexDigit (x % 16)])
 def hexVal (c : Char) : Nat :=
   if c.isDigit then c.toNat - '0'.toNat else if 'a' ≤ c ∧ c ≤ 'f' then c.toNat - 'a'.toNat + 10 else c.toNat - 'A'.toNat + 10
 partial def ofHexL : List Char → Buf
@@ -15,40 +20,231 @@ def ofHex (s : String) : Buf := ofHexL s.toList
 
 def getNat (j : Json) (k : String) : Nat := (j.getObjValAs? Nat k).toOption.getD 0
 def getStr (j : Json) (k : String) : String := (j.getObjValAs? String k).toOption.getD ""
+def getBool (j : Json) (k : String) : Bool := (j.getObjValAs? Bool k).toOption.getD false
+def getArr (j : Json) (k : String) : List Json :=
+  match j.getObjVal? k with
+  | .ok (.arr a) => a.toList
+  | _ => []
+def getObj? (j : Json) (k : String) : Option Json :=
+  match j.getObjVal? k with
+  | .ok .null => none
+  | .ok v => some v
+  | _ => none
+def jInt (v : Json) : Int :=
+  match v with
+  | .str s => s.toInt?.getD 0
+  | v => (v.getInt?).toOption.getD 0
 def getInt (j : Json) (k : String) : Int :=
   match j.getObjVal? k with
-  | .ok (.str s) => s.toInt?.getD 0
-  | .ok v => (v.getInt?).toOption.getD 0
+  | .ok v => jInt v
   | _ => 0
 
 def vtOf (s : String) : CInt :=
   { width := (s.drop 1).toNat!, signed := s.startsWith "i" }
 
-def handle (j : Json) : String :=
+/-! ### configuration IR -/
+
+def scalarOf (j : Json) : Scalar :=
+  match getStr j "k" with
+  | "int" => .int (getBool j "s") (getNat j "sz") (getNat j "al")
+  | "real" => .real (getNat j "sz") (getNat j "al")
+  | _ => .str
+
+instance : Inhabited Elem := ⟨.sc .str⟩
+
+partial def elemOf (j : Json) : Elem :=
+  match getStr j "k" with
+  | "sarr" => .sarr (getNat j "n") (elemOf ((getObj? j "e").getD .null))
+  | _ => .sc (scalarOf j)
+
+def ftOf (j : Json) : FT :=
+  match getStr j "k" with
+  | "darr" => .darr (getStr j "ln") (elemOf ((getObj? j "e").getD .null))
+  | "uuid" => .uuid
+  | _ => .el (elemOf j)
+
+def memberOf (j : Json) : Member := ⟨getStr j "n", ftOf ((getObj? j "ft").getD .null)⟩
+def structOf (j : Json) : Struct := ⟨getNat j "ma", (getArr j "m").map memberOf⟩
+def optScalar (j : Json) (k : String) : Option Scalar := (getObj? j k).map scalarOf
+
+def ertOf (j : Json) : ERT :=
+  { name := getStr j "name", id := getNat j "id", sc := (getObj? j "sc").map structOf, p := (getObj? j "p").map structOf }
+
+def dstOf (j : Json) : DST :=
+  let f := (getObj? j "feat").getD .null
+  { name := getStr j "name", id := getNat j "id",
+    clock := (getObj? j "clock").map fun c => ⟨getStr c "name", ⟨getNat c "w", getBool c "s"⟩⟩,
+    feat := { totalSize := scalarOf ((getObj? f "totalSize").getD .null),
+              contentSize := scalarOf ((getObj? f "contentSize").getD .null),
+              tsBegin := optScalar f "tsBegin", tsEnd := optScalar f "tsEnd", discarded := optScalar f "discarded",
+              seqNum := optScalar f "seqNum", ertId := optScalar f "ertId", erTs := optScalar f "erTs" },
+    pcExtra := (getArr j "pcExtra").map memberOf,
+    ercc := (getObj? j "ercc").map structOf,
+    erts := (getArr j "erts").map ertOf }
+
+def cfgOf (j : Json) : Cfg :=
+  let f := (getObj? j "feat").getD .null
+  { bo := if getStr j "bo" == "le" then .le else .be, fast := getBool j "fast",
+    uuid := (getArr j "uuid").map fun v => (v.getNat?).toOption.getD 0,
+    feat := { magic := optScalar f "magic", uuid := getBool f "uuid", dstId := optScalar f "dstId" },
+    dsts := (getArr j "dsts").map dstOf }
+
+/-! ### canonical printing -/
+
+def showOpt : Option Nat → String
+  | some n => toString n
+  | none => "-"
+
+def showSrc : WSrc → String
+  | .arg => "arg" | .magic => "magic" | .dstId => "dstid" | .pktSize => "pktsize" | .seqNum => "seqnum"
+  | .tsBegin => "tsbegin" | .ertId => "ertid" | .ts => "ts" | .skipSave n => "skip:" ++ n | .uuid => "uuid"
+
+def showScalar : Scalar → String
+  | .int s sz al => (if s then "s" else "u") ++ toString sz ++ "a" ++ toString al
+  | .real sz al => "r" ++ toString sz ++ "a" ++ toString al
+  | .str => "str"
+
+def showAl : Option Nat → String
+  | some a => "(align " ++ toString a ++ ")"
+  | none => ""
+
+def showEOp : EOp → String
+  | .leaf al w => showAl al ++ "(write " ++ showSrc w.src ++ " " ++ (if w.src == .uuid then "uuid" else showScalar w.sc)
+      ++ " oib=" ++ showOpt w.oib ++ ")"
+  | .loop al n b => showAl al ++ "(loop " ++ toString n ++ " " ++ showEOp b ++ ")"
+
+def showMOp : MOp → String
+  | .el n e => "[" ++ n ++ " " ++ showEOp e ++ "]"
+  | .dloop n al ln b => "[" ++ n ++ " " ++ showAl al ++ "(dloop " ++ ln ++ " " ++ showEOp b ++ ")]"
+
+def showRoot (r : RootOp) : String := showAl r.al ++ String.join (r.members.map showMOp)
+
+def showFT : FT → String
+  | .el e => showElem e
+  | .darr ln e => "darr(" ++ ln ++ "," ++ showElem e ++ ")"
+  | .uuid => "uuid"
+where showElem : Elem → String
+  | .sc s => showScalar s
+  | .sarr n e => "sarr(" ++ toString n ++ "," ++ showElem e ++ ")"
+
+def showStruct (s : Struct) : String :=
+  "ma=" ++ toString s.minAlign ++ " al=" ++ toString s.align ++ " " ++
+    String.intercalate "," (s.members.map fun m => m.name ++ ":" ++ showFT m.ft)
+
+def b01 (b : Bool) : String := if b then "1" else "0"
+
+def showKind : CbKind → String
+  | .clock => "clock" | .full => "full" | .open_ => "open" | .close => "close"
+
+def showEv (stores : Bool) : Ev → Option String
+  | .cb k seq f o => some s!"cb {showKind k} {seq} f={b01 f} o={b01 o}"
+  | .cbExit k f => some s!"cx {showKind k} f={b01 f}"
+  | .store off n f o => if stores then some s!"st {off} {n} f={b01 f} o={b01 o}" else none
+  | .deliver b o => some s!"dl {toHex b} o={b01 o}"
+  | .clockRead v => some s!"clk {v}"
+  | .assertFail => some "assert"
+  | .oob => some "oob"
+  | .ret api c bl => some (s!"ret {api} at={c.at_} ps={c.packetSize} full={b01 c.isFull} empty={b01 c.isEmpty} " ++
+      s!"disc={c.eventsDiscarded} seq={c.sequenceNumber} open={b01 c.packetIsOpen} f={b01 c.inTracingSection} " ++
+      s!"en={b01 c.isTracingEnabled} bs={bl}")
+  | _ => none
+
+/-! ### histories -/
+
+def leafOf (j : Json) : Leaf :=
+  match j with
+  | .obj _ => .str (ofHex (getStr j "s"))
+  | v => .num (jInt v)
+
+def argsOf (j : Json) : Args :=
+  match j with
+  | .obj kvs => kvs.toList.map fun (k, v) => (k, match v with | .arr a => a.toList.map leafOf | _ => [])
+  | _ => []
+
+def pairsOf (l : List Json) : List (Nat × Nat) :=
+  l.map fun v => match v with
+    | .arr a => ((a[0]!.getNat?).toOption.getD 0, (a[1]!.getNat?).toOption.getD 0)
+    | _ => (0, 0)
+
+def platOf (j : Json) : Plat :=
+  { clockIncs := (getArr j "incs").map fun v => (v.getNat?).toOption.getD 0,
+    fullAnswers := (getArr j "full").map fun v => (v.getNat?).toOption.getD 0 != 0,
+    toggles := (pairsOf (getArr j "toggles")).map fun (a, b) => (a, b != 0),
+    setBufs := pairsOf (getArr j "setbufs"),
+    openArgs := (getArr j "openargs").map argsOf }
+
+def opOf (j : Json) : Op :=
+  match j with
+  | .arr a =>
+    match (a[0]!.getStr?).toOption.getD "" with
+    | "open" => .open_
+    | "close" => .close
+    | "trace" => .trace ((a[1]!.getStr?).toOption.getD "") (argsOf a[2]!)
+    | "enable" => .enable ((a[1]!.getNat?).toOption.getD 0 != 0)
+    | _ => .query
+  | _ => .query
+
+def findDst (c : Cfg) (n : String) : Option DST := c.dsts.find? (fun (d : DST) => d.name == n)
+
+def runHist (c : Cfg) (j : Json) : String :=
+  match findDst c (getStr j "dst") with
+  | none => "bad-dst"
+  | some d =>
+    let s0 := rtInit (getNat j "buf") (platOf ((getObj? j "plat").getD .null))
+    let s := runOps c d ((getArr j "calls").map opOf) s0
+    let lines := s.log.reverse.filterMap (showEv (getBool j "stores"))
+    (Json.arr (lines.map Json.str).toArray).compress
+
+def handle (cfg : Cfg) (j : Json) : Cfg × String :=
   match getStr j "op" with
   | "bf" =>
     let bo := if getStr j "bo" == "le" then ByteOrder.le else ByteOrder.be
     let vt := vtOf (getStr j "vt")
     let buf := ofHex (getStr j "bg")
-    toHex (bfWrite bo vt buf (getNat j "base") (getNat j "start") (getNat j "len") (getInt j "v"))
+    (cfg, toHex (bfWrite bo vt buf (getNat j "base") (getNat j "start") (getNat j "len") (getInt j "v")))
   | "shifts" =>
     let l := bfShifts (getStr j "bo" == "le") (getNat j "w") (getNat j "start") (getNat j "len")
-    toString (l.all fun (w, a) => a < w)
-  | op => "bad-op " ++ op
+    (cfg, toString (l.all fun (w, a) => a < w))
+  | "cfg" => (cfgOf j, "ok")
+  | "ops" =>
+    match findDst cfg (getStr j "dst") with
+    | none => (cfg, "bad-dst")
+    | some d =>
+      let ert := d.erts.find? (fun (e : ERT) => e.name == getStr j "ert")
+      let r : Option RootOp := match getStr j "root" with
+        | "ph" => some (DST.phOp cfg)
+        | "pc" => some d.pcOp
+        | "h" => some d.erhOp
+        | "cc" => d.erccOp
+        | "sc" => ert.bind ERT.scOp
+        | "p" => ert.bind ERT.pOp
+        | _ => none
+      (cfg, match r with | some r => showRoot r | none => "none")
+  | "struct" =>
+    match findDst cfg (getStr j "dst") with
+    | none => (cfg, "bad-dst")
+    | some d =>
+      (cfg, match getStr j "root" with
+        | "ph" => showStruct cfg.phStruct
+        | "pc" => showStruct d.pcStruct
+        | "h" => showStruct d.erhStruct
+        | _ => "none")
+  | "hist" => (cfg, runHist cfg j)
+  | op => (cfg, "bad-op " ++ op)
 
-partial def loop (h : IO.FS.Stream) (out : IO.FS.Stream) : IO Unit := do
+partial def loop (h : IO.FS.Stream) (out : IO.FS.Stream) (cfg : Cfg) : IO Unit := do
   let line ← h.getLine
   if line.isEmpty then return ()
-  let r := match Json.parse line with
-    | .ok j => handle j
-    | .error e => "bad-json " ++ e
+  let (cfg, r) := match Json.parse line with
+    | .ok j => handle cfg j
+    | .error e => (cfg, "bad-json " ++ e)
   out.putStrLn r
-  loop h out
+  loop h out cfg
 
 end Drv
 
 def main : IO Unit := do
   let i ← IO.getStdin
   let o ← IO.getStdout
-  Drv.loop i o
+  Drv.loop i o { bo := .le, fast := true, uuid := [], feat := ⟨none, false, none⟩, dsts := [] }
   o.flush
